@@ -275,16 +275,21 @@ def main(argv=None):
         except Exception:
             cplan = []
         t_cc = time.time()
-        for ci, (s_, form_, reps_, novel_) in enumerate(cplan):
-            if ci % a.nshards != a.shard:
-                continue
-            crng = random.Random(a.seed * 7919 + s_ * 131 + codeconst.FORMS_SMALL.index(form_))
-            for r_ in range(reps_):
+        mine_cc = [(ci, e_) for ci, e_ in enumerate(cplan) if ci % a.nshards == a.shard]
+        crngs = {ci: random.Random(a.seed * 7919 + e_[0] * 131 + codeconst.FORMS_SMALL.index(e_[1])) for ci, e_ in mine_cc}
+        # repetition-major: every (size, form) of this shard gets its first case before any gets its second (a wall-clock stop then thins all of them alike)
+        for rep_ in range(max([e_[2] for _, e_ in mine_cc] or [0])):
+            if cc["stopped_early"]:
+                break
+            for ci, (s_, form_, reps_, novel_) in mine_cc:
+                if rep_ >= reps_:
+                    continue
+                crng = crngs[ci]
                 cc["planned"] += 1
-                if time.time() - t_cc > 3 * a.budget:
+                if time.time() - t_cc > (8 if novel_ else 3) * a.budget:       # (constants the harness has not seen before get a larger share of wall-clock)
                     cc["stopped_early"] = True
                     break
-                _gen.FORCED = {"size": s_, "form": form_, "used": 0}
+                _gen.FORCED = {"size": s_, "form": form_, "used": 0, "novel": bool(novel_)}
                 try:
                     if hasattr(prop, "const_case"):
                         case = prop.const_case(crng, a.tier, s_, form_)
